@@ -364,8 +364,36 @@ def run_time(case):
   return R(None, L > 1, which)
 
 
+# ------------------------------------------------------------ calling routes
+from ..routes import routes_agree
+
+
+def route_table():
+  T = OrderedDict()
+  c = lambda v: (lambda: v)
+  cx = lambda vs: [[round(complex(v).real, 12), round(complex(v).imag, 12)] for v in vs]
+  T["dft"] = (dft, [("blk", lambda: [1.0, -2.0, 0.5, 4.0, 0.0]), ("freqs", lambda: [0.0, 0.7, math.pi]), ("normalize", c(False))], cx)
+  filt = ZFilter([1.0, 0.5], [1.0, -0.25])
+  T["ZFilter.freq_response"] = (filt.freq_response, [("freq", c(0.7))], lambda v: cx([v]))
+  T["CascadeFilter.freq_response"] = (CascadeFilter(filt, 1 - z ** -1).freq_response, [("freq", c(0.7))], lambda v: cx([v]))
+  T["ParallelFilter.freq_response"] = (ParallelFilter(filt, 1 - z ** -1).freq_response, [("freq", c(0.7))], lambda v: cx([v]))
+  return T
+
+
+def gen_routes(run):
+  for name in route_table():
+    yield (name,)
+
+
+def run_routes(case):
+  f, spec, canon = route_table()[case[0]]
+  return routes_agree(case[0], f, spec, canon)
+
+
 KINDS = OrderedDict([
   ("single", Kind(gen_single, run_single, chunk=2, rule="filter x coefficient type; all grid frequencies inside the case")),
   ("banks", Kind(gen_banks, run_bank, chunk=10, rule="cascade / parallel of 1..3 filters incl. shared denominators")),
   ("time", Kind(gen_time, run_time, chunk=2, rule="DFT / steady-state links for FIR filters; dft properties")),
+  ("call-routes", Kind(gen_routes, run_routes, chunk=1,
+                       rule="each function with every documented parameter set: all positional / all keyword / every split must agree")),
 ])
